@@ -51,6 +51,7 @@ def run(run):
             if good:
                 run.sample(fm94.brief(good[len(good) // 3]), limit=4)
         run.notes['behaviours_ending_in_error_not_replayed'] = nerr
+        fm94.cross_version_pass(run, wd, ('encode',), seed())
         corpus.validate(run, wd, 'encode')
     finally:
         rm_workdir(wd)
